@@ -1066,6 +1066,43 @@ fn g_mutate(g: &mut G, k: &mut usize, to3: bool, fresh: usize) -> bool {
     }
     false
 }
+/// key-spend-only descriptors `tr(KEY)`: output key = tap_tweak(internal, None), no leaves
+fn run_keyspend<Pk: HKey>(ik: usize, out: &mut Out) {
+    let secp = Secp256k1::verification_only();
+    let spec = format!("keyspend-only ik={} kt={}", ik, Pk::TAG);
+    *out.fam.entry("keyspend-only".to_string()).or_insert(0) += 1;
+    let internal = xonly(ik);
+    let (okey, parity) = internal.tap_tweak(&secp, None);
+    let spk = Builder::new().push_opcode(op::OP_PUSHNUM_1).push_slice(okey.serialize()).into_script();
+    let text = format!("tr({})", Pk::of(ik));
+    let api = catch_unwind(AssertUnwindSafe(|| Descriptor::<Pk>::new_tr(Pk::of(ik), None).map_err(|e| err_class(&e).to_string())))
+        .unwrap_or_else(|p| Err(format!("Panic:{}", panic_msg(&p))));
+    let parsed = parse_str::<Pk>(&text);
+    for (name, d) in [("api", api), ("parsed", parsed)] {
+        out.variants += 1;
+        match d.and_then(|d| observe(&d)) {
+            Err(c) => out.violation("oracle:keyspend-only", format!("[{}] {}: {}", name, text, c), &spec),
+            Ok(o) => {
+                let ok = o.root.is_none()
+                    && o.tt_leaves.is_empty()
+                    && o.si_leaves.is_empty()
+                    && o.internal == internal.serialize()
+                    && o.okey == okey.serialize()
+                    && o.parity == (if parity == Parity::Odd { 1 } else { 0 })
+                    && o.spk == spk.to_bytes()
+                    && o.printed.split('#').next() == Some(text.as_str());
+                if !ok {
+                    out.violation(
+                        "oracle:keyspend-only",
+                        format!("[{}] {}: output key {}/{} root {:?} leaves {} printed {}; expected tap_tweak(internal, None) = {}/{}", name, text,
+                            hex(&o.okey), o.parity, o.root.map(|r| hex(&r)), o.si_leaves.len(), o.printed, hex(&okey.serialize()), if parity == Parity::Odd { 1 } else { 0 }),
+                        &spec,
+                    );
+                }
+            }
+        }
+    }
+}
 fn run_bad(out: &mut Out, memo: &mut Vec<Vec<T>>) {
     let key = |i: usize| bitcoin::PublicKey::of(i).to_string();
     let mut gs: Vec<G> = Vec::new();
@@ -1237,6 +1274,10 @@ pub fn run(args: &[String]) {
     }
     if replay.is_none() {
         run_bad(&mut out, &mut memo);
+        for ik in iks {
+            run_keyspend::<bitcoin::PublicKey>(ik, &mut out);
+            run_keyspend::<XOnlyPublicKey>(ik, &mut out);
+        }
     }
 
     // ---- Coq file
